@@ -1763,4 +1763,60 @@ theorem handshake_completes_any_timeouts (C : Cfg) (hC : 1 < C.stepsMax) (P : Hs
     (SysT.run C P dc ds (l.take j) (SysT.init P segs)).clock ≤ budgetSum (l.take j) :=
   C18Hs.handshake_completes_any_timeouts C hC P dc ds hdc hds segs w l hok hT hf j hj
 
+/-! ### an unlimited timeout on one side, the other side polls (`blockWorld`) -/
+
+theorem blocked_wait_is_released (C : Cfg) (hC : 1 < C.stepsMax) (P : HsP) (u : Bool) (dc ds : Bytes) (hdc : dc ≠ [])
+    (hds : ds ≠ []) (T : Int) (hT : T < 0) (g : Glue) (h : Hs) (w : PeerW)
+    (hinv : SysInv P dc ds (mkSys u g h w)) (hok : ProgOk w) (hs : h.stage < 3) (hr : h.writes = false)
+    (hen : Enough P w) :
+    ((blockWorld C P u dc ds).wait w .rd T).1 = true ∧ 0 < ((blockWorld C P u dc ds).wait w .rd T).2.ch.inb u ∧
+    SysInv P dc ds (mkSys u g h ((blockWorld C P u dc ds).wait w .rd T).2) ∧
+    ProgOk ((blockWorld C P u dc ds).wait w .rd T).2 ∧ Enough P ((blockWorld C P u dc ds).wait w .rd T).2 :=
+  C18Hs.blocked_wait_is_released C hC P u dc ds hdc hds T hT g h w hinv hok hs hr hen
+
+theorem unlimited_send_completes_handshake (C : Cfg) (hC : 1 < C.stepsMax) (P : HsP) (u : Bool) (dc ds : Bytes)
+    (hdc : dc ≠ []) (hds : ds ≠ []) (T : Int) (hT : T < 0) (s : St Hs PeerW) (hr : ReadyU (ownPay u dc ds) s)
+    (hinv : SysInv P dc ds (mkSys u s.g s.e s.w)) (hok : ProgOk s.w) (hen : s.e.stage < 3 → Enough P s.w) :
+    ∃ s', sendT C (blockWorld C P u dc ds) (engine P) s (ownPay u dc ds) T = (.ok (ownPay u dc ds).length, s') ∧
+      ReadyU (ownPay u dc ds) s' ∧ SysInv P dc ds (mkSys u s'.g s'.e s'.w) ∧ ProgOk s'.w ∧ 3 ≤ s'.e.stage ∧
+      work P s'.w.e ≤ work P s.w.e ∧ s.w.e.stage ≤ s'.w.e.stage :=
+  C18Hs.unlimited_send_completes_handshake C hC P u dc ds hdc hds T hT s hr hinv hok hen
+
+theorem unlimited_receive_completes_handshake (C : Cfg) (hC : 1 < C.stepsMax) (P : HsP) (u : Bool) (dc ds : Bytes)
+    (hdc : dc ≠ []) (hds : ds ≠ []) (T : Int) (hT : T < 0) (n : Nat) (hn : 1 ≤ n) (s : St Hs PeerW)
+    (hr : ReadyU (ownPay u dc ds) s) (hinv : SysInv P dc ds (mkSys u s.g s.e s.w)) (hok : ProgOk s.w)
+    (hen : s.e.stage < 3 → Enough P s.w) :
+    SysInv P dc ds (mkSys u (receiveT C (blockWorld C P u dc ds) (engine P) s n T).2.g
+      (receiveT C (blockWorld C P u dc ds) (engine P) s n T).2.e (receiveT C (blockWorld C P u dc ds) (engine P) s n T).2.w) ∧
+    3 ≤ (receiveT C (blockWorld C P u dc ds) (engine P) s n T).2.e.stage ∧
+    ((receiveT C (blockWorld C P u dc ds) (engine P) s n T).2.w.prog = [] ∨
+     (∃ out, (receiveT C (blockWorld C P u dc ds) (engine P) s n T).1 = .ok out ∧ out ≠ [] ∧
+        ReadyU (ownPay u dc ds) (receiveT C (blockWorld C P u dc ds) (engine P) s n T).2)) :=
+  C18Hs.unlimited_receive_completes_handshake C hC P u dc ds hdc hds T hT n hn s hr hinv hok hen
+
+theorem handshake_completes_one_side_unlimited (C : Cfg) (hC : 1 < C.stepsMax) (P : HsP) (u : Bool) (dc ds : Bytes)
+    (hdc : dc ≠ []) (hds : ds ≠ []) (T : Int) (hT : T < 0) (segs : List Nat) (prog : List Kind)
+    (hprog : ∀ k ∈ prog, k.ok) (pre post : List ActU) (kb : Kind) (hpre : ∀ a ∈ pre, a = .poll) (hkb : kb.ok)
+    (hpost : ∀ a ∈ post, a.okU) (hlen : pre.length + P.half ≤ prog.length) :
+    SysInv P dc ds (mkSys u (SysU.run C P u dc ds T (pre ++ .block kb :: post) (SysU.init P u segs prog)).g
+      (SysU.run C P u dc ds T (pre ++ .block kb :: post) (SysU.init P u segs prog)).e
+      (SysU.run C P u dc ds T (pre ++ .block kb :: post) (SysU.init P u segs prog)).w) ∧
+    3 ≤ (SysU.run C P u dc ds T (pre ++ .block kb :: post) (SysU.init P u segs prog)).e.stage ∧
+    ((SysU.run C P u dc ds T (pre ++ .block kb :: post) (SysU.init P u segs prog)).w.prog ≠ [] →
+      (SysU.run C P u dc ds T (pre ++ .block kb :: post) (SysU.init P u segs prog)).faults = 0 ∧
+      (P.half ≤ polls post →
+        3 ≤ (SysU.run C P u dc ds T (pre ++ .block kb :: post) (SysU.init P u segs prog)).w.e.stage)) :=
+  C18Hs.handshake_completes_one_side_unlimited C hC P u dc ds hdc hds T hT segs prog hprog pre post kb hpre hkb hpost hlen
+
+theorem blocking_side_must_call (C : Cfg) (hC : 1 < C.stepsMax) (P : HsP) (u : Bool) (dc ds : Bytes)
+    (hdc : dc ≠ []) (hds : ds ≠ []) (T : Int) (hT : T < 0) (segs : List Nat) (prog : List Kind)
+    (hprog : ∀ k ∈ prog, k.ok) (pre : List ActU) (hpre : ∀ a ∈ pre, a = .poll) :
+    (SysU.run C P u dc ds T pre (SysU.init P u segs prog)).e = Hs.init P u ∧
+    ¬ 3 ≤ (SysU.run C P u dc ds T pre (SysU.init P u segs prog)).e.stage :=
+  C18Hs.blocking_side_must_call C hC P u dc ds hdc hds T hT segs prog hprog pre hpre
+
+theorem peer_never_faults (P : HsP) (u : Bool) (dc ds : Bytes) (g : Glue) (h : Hs) (w : PeerW)
+    (hinv : SysInv P dc ds (mkSys u g h w)) : w.faults = 0 :=
+  C18Hs.peer_never_faults P u dc ds g h w hinv
+
 end SockModel.Hs
